@@ -86,9 +86,9 @@ EXTRA = {
  "C04": "Contents include shaped data (zero runs at block boundaries, repeated blocks, block-structured multiples of 512..65536 bytes); after a copy, a further write session on either name must leave the other file untouched.",
  "C06": "Equality is also checked for derived paths: root() and parent() of same-string paths on two filesystem instances must compare unequal, root() must equal the instance's own root.",
  "C05": "Plus a probe of filesystems whose root directory is absent (root removed while empty, altroot directory removed underneath or never created, overlay with a missing lower layer): the observers must tell one story about the root there too. And a walk-with-bystanders probe: a directory the walk has yielded is removed before the walk descends into it; everything outside it must still be yielded exactly once, after its parent.",
- "C07": "Transfers that C01 leaves unspecified (wrong-typed source, the altroot's root as source) are run as the last step of a history with the no-panic, confinement and view monitors only; a panic where the underlying twin returns is a C07 violation.",
+ "C07": "Transfers that C01 leaves unspecified (wrong-typed source, the altroot's root as source) are run as the last step of a history with the no-panic, confinement and view monitors only; a panic where the underlying twin returns is a C07 violation. Timestamp setters are part of the workload: their outcome through the altroot must equal the outcome on the underlying twin.",
  "C09": "Plus a directed probe of the marker-naming clash of sibling pairs (n, n_wo) (known finding KF3).",
- "C10": "Plus a probe that addresses the bookkeeping itself (/.whiteout, marker directories, marker files) after removals and then calls mutators on those addresses: nothing of it may be observable and nothing removed may come back (known finding KF4).",
+ "C10": "Plus a probe that addresses the bookkeeping itself (/.whiteout, marker directories, marker files) after removals and then calls mutators on those addresses: nothing of it may be observable and nothing removed may come back (known finding KF4); the probe also drops short-named and multi-byte-named entries into the bookkeeping and reports any observer panic afterwards (it runs in C13 too).",
  "C11": "Trees use name families (string-extension siblings) two times in three, and names freed by an earlier removal or move of the same case are re-used as destinations.",
  "C12": "The complete join sweep of C06 also runs here: a trailing-slash join that is accepted or classified as anything but invalid-path is reported under C12. Exactness rule: a call on one entry fails at that entry or at an ancestor, so an error label strictly below the call path is a violation.",
  "C13": "Includes AsyncPhysicalFS over the prepared hostile directories, sync and async walks polled to the end while listed entries are removed, and the async read-handle scripts.",
